@@ -389,7 +389,7 @@ def norm_src(t):
 PINS = {
     "primitive::load": ("src/types/primitive.cpp",
                         r"\n  primitive primitive::load\(const char \*&c,\s*const bool includeSign\) \{\n.*?\n  \}\n",
-                        ("f6dde81d051e8f7a",)),
+                        ("f6dde81d051e8f7a", "6f887dfde2411322")),   # 2nd: after 106f420 (float branch converts digits, then applies the sign)
     "primitive::loadBinary": ("src/types/primitive.cpp",
                               r"\n  primitive primitive::loadBinary\(const char \*&c, const bool isNegative\) \{\n.*?\n  \}\n",
                               ("d9b30e9a24da89a7",)),
